@@ -19,5 +19,9 @@ example : ((compound [idw 2, idw 1] [0, 1, 0]).toOption.map fun c => (c.pixDim, 
 example : (compoundW2P [idw 2, idw 1] [0, 1, 0] [7, 8, 9]).toOption = none := by decide +kernel
 example : (compoundW2P [idw 2, idw 1] [0, 1, 0] [7, 8, 7]).toOption = some [7, 8] := by decide +kernel
 example : ∀ i, i < nInputsOf [0, 1, 0] → i ∈ [0, 1, 0] := by decide
+-- a resampling of a resampling: factors (2, 1) then (3, 2), offsets (1/2, 0) then (1, 1/2)
+example : ((resampled (idw 2) (.list [2, 1]) (.list [1/2, 0])).toOption.bind fun w1 =>
+      (resampled w1 (.list [3, 2]) (.list [1, 1/2])).toOption.map fun w2 => w2.p2w [1, 1])
+    = some (mulAdd [1, 1] [6, 2] [5/2, 1/2]) := by decide +kernel
 
 end Ndcube.C14.Witness
